@@ -674,7 +674,13 @@ class Eval:
                             # (no phrase stored), and sentence composition now offers another text for the whole input
                             recomposed = table_sentence and any(cnd[1] == "sentence" and cnd[0] != text and cnd[3] == len(unhex(inp))
                                                                 for cnd in icd["cands"][:1])
-                            self.viols.append((i, "rank:worse:table-sentence-recomposed" if recomposed else "rank:worse", "after committing %s for input %s (offered at position %d) it is now %s" % (
+                            # a second narrow case, table style with the encoder: the committed candidate was a composed sentence, and
+                            # a constructed phrase (an encoded commit or commit-history phrase) now matches the whole input exactly,
+                            # so that no sentence is composed for it at all
+                            displaced = table_sentence and not recomposed and all(cnd[1] != "sentence" for cnd in icd["cands"]) and \
+                                any(cnd[4].startswith(ENC_PREFIX) and cnd[3] == len(unhex(inp)) for cnd in icd["cands"])
+                            self.viols.append((i, "rank:worse:table-sentence-recomposed" if recomposed else
+                                               "rank:worse:table-sentence-displaced-by-constructed" if displaced else "rank:worse", "after committing %s for input %s (offered at position %d) it is now %s" % (
                                 show(text), show(inp), pos, "not offered" if now_pos is None else "at position %d" % now_pos)))
                     rank_watch = None
                 if asm_watch and asm_watch[2] < i:
